@@ -60,7 +60,8 @@ COMPONENTS = {
 }
 PROBES = {"unsafe_entry_present": 1, "symlink_then_dir": 1,
           "checkout_refused": 1, "interrupted_checkout": 1,
-          "symlink_materialised": 1, "copy_patch_applied": 1}
+          "symlink_materialised": 1, "copy_patch_applied": 1,
+          "sparse_checkout_run": 1}
 MIN_BUDGET = 200
 
 DEPTH = ["l1", "l2", "l3", "l4", "l5"]
@@ -222,7 +223,7 @@ def gen_plan(seed, tier):
                                "reset_hard", "update_working_tree",
                                "reset_mixed_hard", "stash_pop", "apply_patch",
                                "am", "switch", "restore", "build_index",
-                               "apply_copy",
+                               "apply_copy", "sparse",
                                "reset_index", "reset_mixed_hard_prev",
                                "reset_mixed_hard_prev", "checkout_paths"]))
     if rng.random() < 0.15:
@@ -359,6 +360,22 @@ GIT_ALLOWED = ("index", "HEAD", "ORIG_HEAD", "packed-refs", "shallow",
                "MERGE_HEAD", "index.lock")
 # rebase-apply/ is where am keeps the mailbox it is applying (as git does)
 GIT_ALLOWED_DIRS = ("refs/", "logs/", "objects/", "rebase-apply/")
+
+
+def _config_items(gitdir):
+    """The repository configuration without the sparse-checkout switches."""
+    from dulwich.config import ConfigFile
+    try:
+        cf = ConfigFile.from_path(os.path.join(gitdir, "config"))
+    except Exception as e:  # noqa: BLE001
+        return ("unreadable", type(e).__name__)
+    out = []
+    for sect in cf.sections():
+        for k, v in cf.items(sect):
+            if sect == (b"core",) and k.lower().startswith(b"sparsecheckout"):
+                continue
+            out.append((sect, k, v))
+    return sorted(out)
 
 
 def git_snapshot(gitdir):
@@ -634,6 +651,41 @@ def run_plan(plan):
                                 porcelain.apply_patch(
                                     r, patch_file=io.BytesIO(make_patch(
                                         plan["trees"][i], ctx)))
+                            elif op == "sparse":
+                                # the index is moved to the tree, then a
+                                # sparse checkout materialises (or, with a
+                                # pattern matching nothing, removes) it
+                                porcelain.reset(r, "mixed", commits[i])
+                                pats = [["*"], ["/*", "/.git/"],
+                                        ["/no-such-name"]][
+                                    plan["seed"] % 3]
+                                cfg0 = _config_items(git_real)
+                                try:
+                                    porcelain.sparse_checkout(
+                                        r, patterns=pats, force=True,
+                                        cone=False)
+                                    if plan["seed"] % 3 == 2:
+                                        porcelain.sparse_checkout(
+                                            r, patterns=["*"], force=True,
+                                            cone=False)
+                                finally:
+                                    # the command's own two records: the
+                                    # pattern file and core.sparseCheckout*
+                                    base = state["git_snap"]
+                                    now = git_snapshot(git_real)
+                                    sp = util.read_real(os.path.join(
+                                        git_real, "info",
+                                        "sparse-checkout")) or b""
+                                    if set(sp.decode().split()) <= {
+                                            "*", "/*", "/.git/",
+                                            "/no-such-name"}:
+                                        if "info/sparse-checkout" in now:
+                                            base["info/sparse-checkout"] = \
+                                                now["info/sparse-checkout"]
+                                    if _config_items(git_real) == cfg0 and \
+                                            "config" in now:
+                                        base["config"] = now["config"]
+                                    stats["probe:sparse_checkout_run"] = 1
                             elif op == "apply_copy":
                                 # hunk-less copy / rename patches: the
                                 # source is an ordinary file, every path of
